@@ -6,6 +6,9 @@
  *   native                      registers nativeAdd(a,b) nativeCat(a,b) nativeFail(a) nativeMk(a)
  *   importcb H                  installs an import callback serving files below directory H
  *   file H MODE | snippet H H MODE      MODE = plain | multi | stream
+ *   newvm                       jsonnet_destroy + jsonnet_make: the following commands address a new VM
+ * A script may hold any number of evaluations and settings changes in any order: they all address
+ * the same VM (histories).
  * Every evaluation prints one line  `R <error flag> <hex of the bytes a C consumer reads>`:
  * for plain results and errors the NUL terminated string, for multi/stream results the
  * double-NUL framed list walked exactly like the reference consumer does (key, value, ... until an
@@ -200,6 +203,9 @@ int main(int argc, char **argv) {
             jsonnet_native_callback(vm, "nativeCat", native_cat, NULL, p2);
             jsonnet_native_callback(vm, "nativeFail", native_fail, NULL, p1);
             jsonnet_native_callback(vm, "nativeMk", native_mk, NULL, p1);
+        } else if (!strcmp(c, "newvm")) {
+            jsonnet_destroy(vm);
+            vm = jsonnet_make();
         } else if (!strcmp(c, "importcb")) {
             jsonnet_import_callback(vm, import_cb, unhex(tok[1]));
         } else if (!strcmp(c, "file")) {
